@@ -582,7 +582,16 @@ func (cs *ConsensusState) tryAddVote(vote *types.Vote, peerID p2p.ID) (bool, err
 				timestamp = cstate.MedianTime(cs.LastCommit.MakeCommit(), cs.LastValidators)
 			}
 
-			evidence := types.NewDuplicateVoteEvidence(voteErr.VoteA, voteErr.VoteB, timestamp, cs.Validators)
+			// a conflicting precommit for the previous height was signed by a member of the previous set
+			valSet := cs.Validators
+			if voteErr.VoteA.Height+1 == cs.Height {
+				valSet = cs.LastValidators
+			}
+			evidence := types.NewDuplicateVoteEvidence(voteErr.VoteA, voteErr.VoteB, timestamp, valSet)
+			if evidence == nil {
+				cs.Logger.Error("Cannot form evidence from conflicting votes", "vote", vote)
+				return added, err
+			}
 			evidenceErr := cs.evpool.AddEvidenceFromConsensus(evidence)
 			if evidenceErr != nil {
 				cs.Logger.Error("Failed to add evidence to the evidence pool", "err", evidenceErr)
